@@ -52,6 +52,16 @@ CHECKS = {
          "Generates commands from the supported RFC 3501/2971/4315/6851/2177/3691 grammar subset (all 29 commands and UID forms, sequence sets, flag lists, fetch attributes/sections/partials, recursive search keys, date/date-time, ID lists), renders every string argument as atom, quoted string or literal where allowed, randomises keyword case, concatenates 1-5 commands and feeds the bytes in 1-byte/small/medium/whole chunks through the reader stack the server uses; command.Parser.Parse must return exactly the generated command. Quick: ~360k commands, thorough: ~9M.",
          "Trusts the generator's own reading of the grammar (only valid commands are generated; leniency of the parser beyond the grammar is not judged) and the reflective dump used for comparison.",
          "DESIGN.md §4 C10"),
+ "C14": ("exploration",
+         "reference-model monitor of the mailbox namespace: tagged results and LIST/LSUB output of every step compared with an executable hierarchy/subscription model and an RFC 3501 wildcard matcher",
+         "Random histories of CREATE/DELETE/RENAME/SUBSCRIBE/UNSUBSCRIBE from 1-3 sessions and connector MailboxCreated/Deleted/Updated, names of depth 1-3 over a small alphabet (three INBOX spellings, quoted name with a space, modified UTF-7, leading/doubled/trailing delimiters, recovery mailbox), delimiter '/' or '.'. After every step the tagged answer is compared with the model and LIST \"\" * / LSUB \"\" * plus two reference/pattern pairs from a pool of 10 references x 32 patterns are compared exactly (names and \\Noselect).",
+         "Where RFC 3501 leaves the outcome open the model follows the server's answer (listed in the evidence assumptions). The empty pattern is only checked for LIST. Component names equal to INBOX below the top level are not generated.",
+         "DESIGN.md §4 C14"),
+ "C15": ("exploration",
+         "reference evaluator over the session's view: generated messages whose searchable data is known by construction, random key-expression trees evaluated by the harness and compared with SEARCH and UID SEARCH; metamorphic NOT/OR/AND relations on the server's own answers",
+         "Mailboxes of 0-16 generated messages (flags, keywords, \\Recent vs old, sizes, internal dates at day edges, Date headers in several zones, address/subject/X-Tag headers present, absent, empty, folded; body words). The observer's view is read with FETCH (UID, FLAGS, RFC822.SIZE, INTERNALDATE), also after other sessions changed it. ~50 random expressions per mailbox over all RFC 3501 keys with NOT/OR/lists to depth 3 and 1-3 juxtaposed keys (optional CHARSET): SEARCH must return exactly the ascending sequence numbers the evaluator selects, UID SEARCH the UIDs of the same messages; NOT = complement, OR = union, (a b) = intersection checked on the server's answers.",
+         "Internal dates are given in UTC; SENT* compares the date of the Date header as written. Sequence/UID sets that RFC 3501 lets fail or that the property does not judge (n:* above the highest UID) are not generated inside expressions (C16 covers sets).",
+         "DESIGN.md §4 C15"),
  "C16": ("exploration",
          "reference resolver monitor: generated message sets (hostile magnitudes, both range orders, '*', unions) against views with UID gaps; selected messages / BAD+no-effect compared with an RFC 3501 set resolver; exhaustive small-n table in thorough",
          "Runs the real server and, for views of 0-12 messages with UID gaps, issues FETCH/STORE/COPY/MOVE/SEARCH/UID EXPUNGE (sequence and UID forms) with generated sets whose numbers include 0, n+1, 2^31+-1, 2^32+-1, 2^32+k, 2^63+-1, 2^64+k, 10^30; the messages actually affected (rows returned, flags set, messages copied/moved/expunged, search results) must equal what an independent resolver computes, an invalid sequence number must give BAD and leave source and destination unchanged. Thorough adds all sets of <=2 ranges over {1..n+2,*} for n<=4.",
